@@ -308,6 +308,15 @@ B3_VALIDATED = set(['box_stale_never_matches', 'box_stale_vs_recycle', 'box_thre
 for _s in ALL:
     if _s['bound'] == {'quick': 2, 'thorough': 3} and _s['name'] not in B3_VALIDATED: _s['bound'] = {'quick': 2, 'thorough': 2}
 
+# Thorough-only scenarios that were built and explored but did NOT finish within 25 minutes per run (or were unsupported) when
+# the thorough tier was validated on this machine; an inconclusive run would make the tier exit 2, so they are not registered.
+# They stay defined above as documentation of what was tried (DESIGN.md 10.4).
+NOT_FINISHING = set(['vec_overlap_grow', 'vec_bs2_same_block', 'pa_batch', 'pa_cache_full_race', 'pa_keep_one', 'tp_two_consumers', 'tp_two_consumers_one_item',
+                     'eq_refused_1x1', 'eq_refused_twice_then_recover', 'eq_refused_seq', 'eq_inline_two_producers', 'eq_parked_consumer', 'eq_refused_race',
+                     'ap_two_writers', 'ap_one_writer', 'ap_empty_entry', 'gc_stop_with_open_region', 'gc_retire_then_stop', 'gc_never_early',
+                     'ser_roundtrip_all', 'ser_hostile_len6_all', 'q_nonconc_producer'])
+ALL[:] = [_s for _s in ALL if _s['name'] not in NOT_FINISHING]
+
 # ----------------------------------------------------------------------------------------------- manifest texts
 LEVEL_TEXT = {
  'C01': 'Real ConcurrentBoundedQueue<two-word payload, VS> IR; client programs of 2-4 threads mixing push/pop/try_/push_n/pop_n/callback variants on capacities 1-2; oracle = exactly-once multiset, per-thread FIFO, fully published payload, try_ success when sequenced after enough completed operations.',
@@ -318,18 +327,18 @@ LEVEL_TEXT = {
  'C06': 'Sequential mode on the real memory_resource.cpp: concrete prefix up to a page-array boundary, then 2 symbolic (size from an 8-entry boundary table, alignment 1..512) requests with optional destructor registration; oracle: aligned, owned, disjoint, canaries intact, release() returns each page / oversize block once with its size+alignment, destructors once in reverse order, accounting zero, reusable. Shared/swiss variants outside.',
  'C08': 'Real FutureContext<two-word value, VS> / CountDownLatch: set_value vs on_finish (before/after/concurrent) vs get / wait_for(symbolic timeout incl. negative and the 2^16 largest values, symbolic monotone ns clock < 2^16); callbacks once with the value, get returns it, wait_for true => ready, false => time elapsed; STUCK query for get.',
  'C09': 'Real Epoch (x86-64 tick): reader regions (accessor, nested, moved between threads, second slot, released/unlocked accessor) vs unlink+tick+low_water_mark; a reader that still sees the old cell never observes it reclaimed; released/unlocked accessors do not hold the mark back. sc/tso/arm.',
- 'C10': 'Sequential mode on the real keep_reclaim(): 0-2 retires, optional reader region closing at a symbolic back-off sleep, stop marker; every reclaimer exactly once, never while the region is open, before the collector returns; plus a region-enter and a retire injected during the queue intake of the collector (reclaimer move-constructor as re-entrant scheduling hook; plain and wrapped two-part intake): that object is never reclaimed while the region is open. Concurrent collector scenarios are thorough-tier only (slow).',
+ 'C10': 'Sequential mode on the real keep_reclaim(): 0-2 retires, optional reader region closing at a symbolic back-off sleep, stop marker; every reclaimer exactly once, never while the region is open, before the collector returns; plus a region-enter and a retire injected during the queue intake of the collector (reclaimer move-constructor as re-entrant scheduling hook; plain and wrapped two-part intake): that object is never reclaimed while the region is open. A concurrent collector thread is outside: the three scenarios built for it do not finish within 25 minutes and are not registered.',
  'C13': 'Real coroutine futex.cpp + DepositBox with hand-made coroutine frames (real await_suspend, resume through the bound executor): wake_one / wake_all / cancel / new waiter races for 2 waiters; each suspension resumed exactly once on its executor, wake_one resumes a non-cancelled waiter if one exists, non-matching value does not suspend. Task/Future awaiters are outside.',
  'C14': 'Real IdAllocator<uint32_t> (pop vs pop-push-pop ABA, mint race, reuse when free values exist, symbolic alloc/free history of 4 ops vs reference set incl. for_each and end()) and DepositBox (2-3 takers one winner, stale id never matches across slot reuse). Per-thread ids across thread exit are outside.',
  'C15': 'Real ConcurrentTransientTopic<two-word payload, VS>: publish / publish_n / close vs 1-2 consumers (consume, consume(2)), two publishers; exact sequence then end marker, payload fully visible, STUCK query for consumers. clear()/reuse outside.',
- 'C16': 'Real ConcurrentExecutionQueue with a harness Executor (inline / parked consumer): items consumed exactly once, never two consumers at once (plain-access detector), no item stranded once every accepted consumer has run. Refused launches and join() are thorough-tier.',
+ 'C16': 'Real ConcurrentExecutionQueue with a harness Executor (inline / parked consumer): items consumed exactly once, never two consumers at once (plain-access detector), no item stranded once every accepted consumer has run. join() and two sequential items are thorough-tier; concurrent refused-launch races are outside (built, not finishing, not registered; the sequential symbolic refusal schedule covers the refusal logic).',
  'C17': 'Real CachedPageAllocator over a recording upstream: ownership detector (a page is never held twice / returned upstream twice / returned while held) and conservation upstream_out - upstream_in == held + cached. Object pool, batch/counting allocators outside.',
  'C18': 'Sequential mode on the real ConcurrentTransientHashSet: default / sized(4,16) construction, N inserts with duplicates (N symbolic <= 6, and exactly 34 to cross two chained tables), then size/empty/iteration/find/contains vs a reference bitmap. clear/reserve/rehash/copy/move/swap histories outside.',
  'C07': 'Real ThreadPoolExecutor (started with 0 OS threads; a harness thread runs the real keep_execute() worker loop): submit()/execute() of 1-2 tasks, the STOP markers of stop(), join == worker returned; every accepted task ran exactly once on a thread that reports is_running_in(), before the stopper passes its join; STUCK query on the futex-based global queue. Sequential re-entrant scenarios run the real start()/stop()/keep_execute()/keep_balance() with std::thread played by the harness: a task that spawned a child into its local queue is pre-empted while another thread stops the pool and the balance thread performs its last steal pass (local capacity 0/2, balance thread on/off, symbolic spawn): nothing accepted is lost behind the STOP tokens. Work stealing between 2 workers is thorough-tier; concurrent tasks-spawning-tasks and the new-thread executor are outside.',
  'C11': 'Sequential mode: real babylon serialization traits + BABYLON_COMPATIBLE aggregates over the real protobuf coded-stream inline code, with a model of the out-of-line libprotobuf stream functions (harness/serial/pbmodel.cpp, validated against the real library by native replay of every witness): round trip and predicted size for ALL values of uint64 / int32+bool / nested aggregate, varint wire compatibility with a reference encoder, unknown fields of every wire type skipped, arbitrary input bytes up to 4 (terminates, no read past the input, success => re-serialises and re-parses to itself); a nested aggregate with a payload of 121..132 bytes (symbolic last field) across the one/two-byte length-prefix boundary: predicted size == bytes produced, own output parses back, following field found. Strings, containers, smart pointers, protobuf messages, stream-backed inputs outside.',
  'C12': 'Sequential mode on the real ReusableVector<uint64_t> over ExclusiveMonotonicBufferResource: 2-3 symbolic operations (push_back, pop_back, insert(pos), erase(pos), resize, clear, assign with symbolic positions/counts) from an empty or 3-element vector, compared after every step with a reference array; size <= constructed_size <= capacity, clear keeps capacity. Strings, nested reusable elements, manager cadence outside.',
  'C19': 'Sequential thread generations (each generation = a new logical thread after the previous one exited and its thread_local destructors ran; natively replayed on real std::threads): adder/summer exact across thread exit and thread-id reuse, maxer/miner extreme of the period for arbitrary 64-bit inputs, local() stable, for_each vs for_each_alive, a new counter recycling a destroyed one starts from zero; a new CompactEnumerableThreadLocal instance created and used from inside the destructor wipe loop of another instance (default-constructor hook) starts from zero and keeps its contents. Concurrent counting-vs-reading outside.',
- 'C20': 'Sequential mode: real LogStreamBuffer + LogEntry::append_to_iovec for every length <= 40 (page 16): scatter list == bytes written, every page once; real AsyncFileAppender write() x3 with symbolic entry lengths 0..2, stop marker, real keep_writing(): file == concatenation, pages returned. Concurrent appender scenarios thorough-tier.',
+ 'C20': 'Sequential mode: real LogStreamBuffer + LogEntry::append_to_iovec for every length <= 40 (page 16): scatter list == bytes written, every page once; real AsyncFileAppender write() x3 with symbolic entry lengths 0..2, stop marker, real keep_writing(): file == concatenation, pages returned. write_use_plain_writev is driven directly with 1020..1030 iovecs against a writev that rejects more than IOV_MAX; a concurrent writer thread is outside (scenarios built, not finishing, not registered).',
 }
 LEVEL_NOTE = {'C05': 'C05 additionally trusts the harness models of a few out-of-line libstdc++/abseil container functions (listed in the evidence assumptions).'}
 TECH_EXTRA = {}
